@@ -6,7 +6,10 @@ real run : N tasks (or threads) call send_packet concurrently on the REAL client
              sclient   the server-side client of AsyncTCPNetworkServer (in-memory listener)
              endpoint  AsyncStreamEndpoint without any lock        (ResourceGuard must refuse, not interleave)
              fairlock  FairLock alone: acquire/hold/release rounds with timeouts and cancellations of waiters
-             tls       AsyncTLSStreamTransport written to by N tasks at once (real OpenSSL, in-memory pipe)
+             tls       AsyncTLSStreamTransport written to by N tasks at once (real OpenSSL, in-memory pipe), with
+                       reader tasks (recv / recv_into) on the same transport and traffic from the peer
+             tlsclient AsyncTCPNetworkClient over the TLS transport (senders + recv_packet readers)
+             tlsserver the server-side client of AsyncTCPNetworkServer(ssl=...) (senders while the server reads)
              tcp/udp   blocking thread-safe clients with real threads (stress run, order not controlled)
            over an in-memory transport that writes PRNG-chosen partial amounts and suspends the writer for
            PRNG-chosen numbers of loop turns / virtual ticks, on a virtual-time event loop.
@@ -64,12 +67,17 @@ ASSUMPTIONS = [
 ]
 RULE = (
     "case = target x lock kind x serializer x per-sender packet lists, start delays, gaps x transport script "
-    "(bytes accepted per write, pause after each write) x cancellations of parked senders; "
+    "(bytes accepted per write, pause after each write) x cancellations of parked senders; TLS targets additionally x "
+    "reader tasks on the same transport (recv / recv_into / recv_packet / the server's receiver; started before, between, "
+    "after the senders; parked or woken by peer traffic cut at arbitrary ciphertext offsets) x send_all / "
+    "send_all_from_iterable mixed; "
     "non-trivial = at least one sender had to park in the lock / was refused by the guard while another sender was "
     "suspended inside a partially written packet (or, for fairlock, at least one waiter was queued); distinct by case digest"
 )
 
-ASYNC_TARGETS = ("aclient", "sclient", "endpoint", "fairlock", "tls", "tlsclient")
+ASYNC_TARGETS = ("aclient", "sclient", "endpoint", "fairlock", "tls", "tlsclient", "tlsserver")
+TLS_TARGETS = ("tls", "tlsclient", "tlsserver")
+TLS_VIA_CLIENT = ("tlsclient", "tlsserver")
 
 
 # ------------------------------------------------------------------------------------------------
@@ -95,7 +103,7 @@ def _run_real(case: dict) -> list[str]:
         return R.run_fairlock(case)
     if t == "sclient":
         return R.run_sclient(case)
-    if t in ("tls", "tlsclient"):
+    if t in TLS_TARGETS:
         from vlib import c12_tls
         return c12_tls.run_tls(case)
     if t in ("tcp", "udp"):
@@ -136,7 +144,7 @@ def _unstar(case: dict, lines: list[str]) -> list[str]:
 
 
 def real_for_diff(case: dict, real: list[str]) -> list[str]:
-    if case["target"] in ("tls", "tlsclient"):
+    if case["target"] in TLS_TARGETS:
         from vlib import c12_tls
         return c12_tls.real_for_diff(case, real)
     return _unstar(case, canonical(case, real))
@@ -180,7 +188,7 @@ def ops_from_trace(case: dict, real: list[str]) -> list[str]:
 
 def model_input(case: dict, real: list[str]):
     t = case["target"]
-    if t in ("tls", "tlsclient"):
+    if t in TLS_TARGETS:
         from vlib import c12_tls
         return c12_tls.model_input(case, real)
     if t not in ("aclient", "sclient", "endpoint", "fairlock"):
@@ -199,7 +207,7 @@ def model_input(case: dict, real: list[str]):
 
 def model_post(case: dict, lines: list[str]) -> list[str]:
     t = case["target"]
-    if t == "tlsclient":
+    if t in TLS_VIA_CLIENT:
         lines = [ln for ln in lines if not ln.startswith(("send ", "sent "))]
     if t == "endpoint":
         lines = [ln for ln in lines if not ln.startswith("final ")]
@@ -297,7 +305,10 @@ def oracle(case: dict, real: list[str]) -> str | None:
         return None
     perr = [ln for ln in real if ln.startswith("peer-error")]
     if perr:
-        return f"the TLS peer cannot decrypt the stream ({perr[0]}): ciphertext of two flushes interleaved or reordered"
+        il = [ln for ln in real if ln.startswith("note interleaved-flush")]
+        how = (f"the lower transport wrote a piece of the blob flushed by {il[0].split()[3]} inside the blob flushed by "
+               f"{il[0].split()[2]}") if il else "ciphertext of two flushes interleaved or reordered"
+        return f"the TLS peer cannot decrypt the stream ({perr[0]}): {how}"
     out = outcomes(real)
     parts: list[list[str]] = []
     for i, s in enumerate(case["senders"]):
@@ -321,15 +332,62 @@ def oracle(case: dict, real: list[str]) -> str | None:
     rx = [ln.split()[1] for ln in real if ln.startswith("rx ")]
     if not is_merge(rx, parts):
         return f"peer received {rx[:8]}, not a merge of the per-sender sequences {parts}"
-    if t in ("aclient", "sclient", "tlsclient"):
+    if t in ("aclient", "sclient", "tlsclient", "tlsserver"):
         why = lock_oracle([ln for ln in real if not ln.startswith(("tls.", "tlsrecv."))], fifo=False)
         if why:
             return why
-    if t in ("tls", "tlsclient"):
+    if t in TLS_TARGETS:
         why = lock_oracle(real, prefix="tls.", fifo=False)
         if why:
             return "TLS send lock: " + why
+        return reader_oracle(case, real)
     return None
+
+
+def reader_oracle(case: dict, real: list[str]) -> str | None:
+    """the tasks reading on the same TLS transport while the senders run: none of them fails, every one of them comes
+    back (with EOF once the peer has closed), and together they get what the peer sent, in order (a reader is not a
+    sender, but 'every call succeeds' would be void if sending broke the receive side of the same transport)"""
+    if not any(ln.startswith(("rd.", "peer.")) for ln in real):
+        return None
+    closed = False
+    open_calls: dict[str, str] = {}
+    got: list[str] = []
+    sent: list[str] = []
+    via = case["target"] in TLS_VIA_CLIENT
+    for ln in real:
+        w = ln.split()
+        if w[0] == "peer.close":
+            closed = True
+        elif w[0] == "peer.msg":
+            sent.append(w[1] if len(w) > 1 else "")
+        elif w[0] == "rd.call":
+            open_calls[w[1]] = w[2]
+        elif w[0] == "rd.ret":
+            open_calls.pop(w[1], None)
+            v = w[3]
+            if v == "eof" or (closed and (v.startswith("conn-") or v == "closed")):
+                if not closed:
+                    return f"reader {w[1]} got EOF before the peer closed"
+            elif v == "-" or all(c in "0123456789abcdef" for c in v):
+                got.append(v)
+            else:
+                return f"read {w[2]} of reader {w[1]} failed: {v}"
+    if open_calls:
+        return f"reader(s) {sorted(open_calls)} never came back from their read although the peer closed"
+    if via:
+        exp = [ln.split()[1] for ln in _peer_packets(case, sent)]
+        if got != exp[:len(got)]:
+            return f"the readers received {got[:6]}, the peer sent {exp[:6]}"
+    else:
+        a, b = "".join(got).replace("-", ""), "".join(sent)
+        if not b.startswith(a):
+            return f"the readers received {a[:60]}, the peer sent {b[:60]}"
+    return None
+
+
+def _peer_packets(case: dict, sent_hex: list[str]) -> list[str]:
+    return [ln for ln in R.parse_wire(case["spec"], bytes.fromhex("".join(sent_hex))) if ln.startswith("rx ")]
 
 
 # ------------------------------------------------------------------------------------------------
@@ -340,7 +398,7 @@ def nontrivial(case: dict, real: list[str]) -> str | None:
     t = case["target"]
     if t in ("tcp", "udp"):
         return f"{t}/threads" if any(ln.startswith("note contended") for ln in real) else None
-    if t in ("tls", "tlsclient"):
+    if t in TLS_TARGETS:
         from vlib import c12_tls
         return c12_tls.nontrivial(case, real)
     canon = canonical(case, real)
@@ -394,6 +452,24 @@ def shrink(case: dict):
                 yield {**case, "senders": ss[:i] + [{**s, key: s[key][:j] + s[key][j + 1:]}] + ss[i + 1:]}
     if case.get("cancels"):
         yield {**case, "cancels": case["cancels"][:-1]}
+    for key2 in ("readers", "peer_msgs"):
+        xs = case.get(key2, [])
+        for i in range(len(xs)):
+            yield {**case, key2: xs[:i] + xs[i + 1:]}
+    for i, r in enumerate(case.get("readers", [])):
+        for k2, v2 in (("pre", 0), ("delay", 0), ("gap", 0), ("count", 0), ("bufsize", 65536)):
+            if r.get(k2, v2) != v2:
+                yield {**case, "readers": case["readers"][:i] + [{**r, k2: v2}] + case["readers"][i + 1:]}
+    for i, m in enumerate(case.get("peer_msgs", [])):
+        if m.get("cuts"):
+            yield {**case, "peer_msgs": case["peer_msgs"][:i] + [{**m, "cuts": m["cuts"][:-1]}] + case["peer_msgs"][i + 1:]}
+        if len(m.get("packets", [])) > 1:
+            yield {**case, "peer_msgs": case["peer_msgs"][:i] + [{**m, "packets": m["packets"][:1]}] + case["peer_msgs"][i + 1:]}
+    if case.get("mode") == "mixed":
+        yield {**case, "mode": "iter"}
+    for k2 in ("buffered", "per_gen", "oc_pause"):
+        if case.get(k2):
+            yield {**case, k2: 0}
     sc = case.get("script", [])
     if sc:
         yield {**case, "script": sc[: len(sc) // 2]}
@@ -406,8 +482,9 @@ def shrink(case: dict):
 
 
 def known_key(case: dict, real: list[str], why: str) -> str:
-    kind = "deadlock" if "deadlock" in why else ("interleave" if "merge" in why or "parse" in why else
-                                                 ("call-failed" if "failed" in why else "lock"))
+    kind = "deadlock" if "deadlock" in why else (
+        "interleave" if "merge" in why or "parse" in why or "decrypt" in why else
+        ("reader" if why.startswith(("reader", "read ", "the readers")) else ("call-failed" if "failed" in why else "lock")))
     return f"target={case['target']},lock={case.get('lock', '-')},kind={kind}"
 
 
@@ -514,12 +591,43 @@ def gen_async_case(rng, target: str) -> dict:
     order = list(range(n))
     rng.shuffle(order)
     case["start_order"] = order
-    if target in ("tls", "tlsclient"):
+    if target in TLS_TARGETS:
         # ciphertext blobs are tens of bytes: larger pieces, still many suspensions
         case["script"] = [[rng.choice([1, 3, 7, 20, 23, 100, 1 << 20]), rng.choice(PAUSES)] for _ in range(rng.randint(0, 40))]
+        add_tls_traffic(rng, case)
     if target not in ("endpoint", "tls") and rng.random() < 0.35:
         case["cancels"] = [[rng.randrange(n), rng.choice([0, 0, 1, 1, 2, 3, 4, 6])] for _ in range(rng.randint(1, 3))]
     return case
+
+
+def add_tls_traffic(rng, case: dict) -> None:
+    """readers on the same TLS transport + traffic from the peer (see c12_tls): a quarter of the `tls` / `tlsclient`
+    cases stay sender-only"""
+    target, spec = case["target"], case["spec"]
+    if target == "tls" and rng.random() < 0.3:
+        case["mode"] = "mixed"
+        for s in case["senders"]:
+            s["modes"] = [rng.choice(["iter", "join"]) for _ in s["packets"]]
+    if target != "tlsserver" and rng.random() < 0.25:
+        return
+    if target == "tlsserver":
+        case["buffered"] = rng.random() < 0.5
+        case["per_gen"] = rng.choice([0, 0, 1, 2])
+        case["oc_pause"] = rng.choice([0, 0, 1, 2, -1])
+    else:
+        case["readers"] = [{"kind": rng.choice(["recv", "recv_into"]), "first": rng.random() < 0.5,
+                            "delay": rng.choice([0, 0, 0, 0, 1, 1, 2, 3, 5]), "pre": rng.choice([0, 0, 1, 2, 3, 4, 6]),
+                            "bufsize": rng.choice([1, 3, 16, 1024, 65536]), "count": rng.choice([0, 0, 0, 1, 2]),
+                            "gap": rng.choice([0, 0, 1, 2, -1])} for _ in range(rng.choice([1, 1, 1, 2, 3]))]
+    msgs = []
+    for m in range(rng.choice([0, 1, 1, 2, 3, 4])):
+        pk = [gen_payload(rng, spec, 9, 10 * m + j) for j in range(rng.randint(1, 2))]
+        msgs.append({"at": rng.choice([0, 0, 1, 1, 2, 3, 4, 6]), "pre": rng.choice([0, 0, 1, 2, 3, 5]), "packets": pk,
+                     "cuts": [rng.choice([1, 2, 5, 5, 10, 21, 22, 23, 40]) for _ in range(rng.randint(0, 4))],
+                     "gap": rng.choice([0, 1, 1, 2, 3, -1])})
+    msgs.sort(key=lambda m: m["at"])
+    if msgs:
+        case["peer_msgs"] = msgs
 
 
 def gen_thread_case(rng, target: str) -> dict:
@@ -562,7 +670,8 @@ def generate(rng, tier: str, boost: int):
     quick = tier == "quick"
     plan = [("aclient", 1500 if quick else 20000), ("sclient", 600 if quick else 8000),
             ("fairlock", 1500 if quick else 20000), ("endpoint", 400 if quick else 6000),
-            ("tls", 500 if quick else 8000), ("tlsclient", 150 if quick else 2000)]
+            ("tls", 600 if quick else 10000), ("tlsclient", 150 if quick else 2000),
+            ("tlsserver", 150 if quick else 2000)]
     for target, n in plan:
         for _ in range(n * boost):
             yield gen_async_case(rng, target)
@@ -574,7 +683,7 @@ def generate(rng, tier: str, boost: int):
 
 
 def extra_coverage(stats) -> dict:
-    return {"targets": "aclient, sclient, endpoint, fairlock, tls, tlsclient are replayed through the Lean model "
+    return {"targets": "aclient, sclient, endpoint, fairlock, tls, tlsclient, tlsserver are replayed through the Lean model "
             "(asyncio.Lock schedules with cancellations: oracle only); tcp/udp thread stress runs: oracle only",
             "exhaustive": "thorough tier: complete grid 3x3 start delays x 4^4 per-write pauses for 2 senders x 2 chunks "
             "(aclient with both lock kinds, bare endpoint)"}
